@@ -1,3 +1,24 @@
-From TM Require Import Base Frame.
-Theorem C10_placeholder : fc_value (fc_new 1) = 1.
-Proof. reflexivity. Qed.
+(* C10 -- TCP transaction identifiers are fresh for every transmitted request.
+   [run_ops] executes any history of calls (completed, failing at any point, abandoned, rejected
+   before transmission), set_slave and disconnect on a client with a scripted transport. *)
+From Coq Require Import Lia.
+From TM Require Import Base Frame Framed Client ClientProofs Histories.
+
+(* every call advances the id by exactly one mod 65536, whatever its outcome *)
+Theorem C10_call_advances_by_one : forall m st req bg,
+  next_tid (snd (call TCP m st req bg)) = (next_tid st + 1) mod 65536.
+Proof. exact call_tid_advances. Qed.
+
+(* after any history the counter is the number of calls so far, mod 65536 *)
+Theorem C10_tid_counts_calls : forall m ops st, next_tid st < 65536 ->
+  next_tid (run_ops TCP m st ops) = (next_tid st + ncalls ops) mod 65536.
+Proof. exact tid_after_history. Qed.
+Theorem C10_tid_of_kth_call : forall m ops slave,
+  fst (req_hdr TCP (run_ops TCP m (client_new TCP slave) ops)) = ncalls ops mod 65536.
+Proof. exact tid_of_call. Qed.
+
+(* any two calls fewer than 65536 calls apart carry different ids; the id never sticks *)
+Theorem C10_distinct_in_window : forall i j, i < j -> j < i + 65536 -> i mod 65536 <> j mod 65536.
+Proof. exact tids_distinct_in_window. Qed.
+Theorem C10_never_sticks : forall k, (k + 1) mod 65536 <> k mod 65536.
+Proof. exact tid_never_sticks. Qed.
